@@ -112,6 +112,7 @@ type outRec struct {
 	ReqID   int
 	SyncErr bool
 	Inc     int
+	At      time.Time
 }
 
 type recorder struct {
@@ -423,6 +424,7 @@ type rnode struct {
 	redoCur    int
 	redoN      map[int64]int
 	prevLock   [2]string
+	lateFlag   bool
 }
 
 func newRnode(nw *netw, idx int) *rnode {
@@ -450,6 +452,7 @@ func (r *rnode) close() {
 
 func (r *rnode) stamp(o outRec, st consensus.VerifState) outRec {
 	o.H, o.Round, o.Step, o.LRound, o.LID, o.Inc = st.Height, st.Round, st.Step, st.LockedRound, st.LockedID, r.inc
+	o.At = time.Now()
 	return o
 }
 
@@ -512,10 +515,27 @@ func (r *rnode) settle() {
 }
 
 func (r *rnode) timerDur(step int) time.Duration {
-	if step == stepNewHeight {
+	switch step {
+	case stepNewHeight:
 		return 50 * time.Millisecond // Regulator().CommitTimeout() of the fixture
+	case stepNewRound:
+		return 0 // nextProposeTime - now: unknown, at most 1 s: nothing is delivered while it is armed
 	}
 	return timerD
+}
+
+// lateForTimer: the timer that is armed now may already have fired (checked
+// AFTER the outputs of an event have been collected: if it fired before that,
+// this is true).
+func (r *rnode) lateForTimer() bool {
+	if r.lateFlag {
+		r.lateFlag = false
+		return true
+	}
+	if r.down || r.timerPtr == nil || r.lastObs.Step == stepNewHeight {
+		return false
+	}
+	return time.Now().After(r.timerLower.Add(r.timerDur(r.lastObs.Step) - timerSafety))
 }
 
 // after is called when an event (started at t0) has been processed.  If an
@@ -524,6 +544,7 @@ func (r *rnode) timerDur(step int) time.Duration {
 // height is discarded (the direct oracles do not depend on attribution).
 func (r *rnode) after(t0 time.Time) consensus.VerifState {
 	r.settle()
+	tRead := time.Now()
 	st := r.state()
 	t1 := time.Now()
 	if r.timerPtr != nil && t1.Sub(r.timerLower) > r.timerDur(r.lastObs.Step)-timerSafety {
@@ -536,7 +557,7 @@ func (r *rnode) after(t0 time.Time) consensus.VerifState {
 		r.timerPtr = st.Timer
 		r.timerLower = t0
 	}
-	r.lastPoll = t1
+	r.lastPoll = tRead
 	r.lastObs = st
 	return st
 }
@@ -571,6 +592,12 @@ func (r *rnode) pollTimer() (consensus.VerifState, bool) {
 	}
 	r.settle()
 	st = r.state()
+	// the fire happened after the last look that saw the old timer; a timer armed
+	// by that activation fires at least one step timer later: if that much time
+	// has passed since the last look, two activations may have run unseen
+	if time.Since(r.lastPoll) > timerD-timerSafety {
+		r.lateFlag = true
+	}
 	r.timerPtr = st.Timer
 	r.timerLower = r.lastPoll // the new timer was armed after the last look that saw the old one
 	r.lastPoll = time.Now()
